@@ -44,6 +44,7 @@ func verifKindToken(tag string, kind int) json.RawMessage {
 // names a valid request may use.
 func verifGenMember(tag string, methods []string) *verifMember {
 	m := &verifMember{}
+	full := thorough()
 	if nondetBool(tag + ".nonobject") {
 		m.raw = nondetToken(tag + ".raw")
 		k := tokKind(m.raw)
@@ -55,7 +56,7 @@ func verifGenMember(tag string, methods []string) *verifMember {
 	var vals []json.RawMessage
 	if m.hasV = nondetBool(tag + ".hasV"); m.hasV {
 		nv := 3
-		if thorough() {
+		if full {
 			nv = 4
 		}
 		m.vClass = nondetChoice(tag+".vClass", nv)
@@ -107,7 +108,7 @@ func verifGenMember(tag string, methods []string) *verifMember {
 		keys, vals = append(keys, "params"), append(vals, m.params)
 	}
 	if m.hasE = nondetBool(tag + ".hasE"); m.hasE {
-		if thorough() {
+		if full {
 			m.eClass = nondetChoice(tag+".eClass", 3)
 		} else {
 			m.eClass = 2 * nondetChoice(tag+".eClass", 2)
@@ -131,10 +132,96 @@ func verifGenMember(tag string, methods []string) *verifMember {
 		assume(tokKind(m.result) != tkInvalid)
 		keys, vals = append(keys, "result"), append(vals, m.result)
 	}
-	if !thorough() && (m.hasE || m.hasR) {
+	if !full && (m.hasE || m.hasR) {
 		// quick tier: the unknown key is combined with request fields only
 	} else if m.hasX = nondetBool(tag + ".hasX"); m.hasX {
 		keys, vals = append(keys, "x-extra"), append(vals, tokLit("1"))
+	}
+	m.nkeys = len(keys)
+	m.raw = tokObject(keys, vals)
+	return m
+}
+
+// verifGenMemberSmall builds a member from nine representative classes (ids,
+// params, results and error codes stay symbolic).  Used for pairs of members,
+// where the full generator would be squared.
+func verifGenMemberSmall(tag string) *verifMember {
+	m := &verifMember{isObject: true}
+	var keys []string
+	var vals []json.RawMessage
+	add := func(k string, v json.RawMessage) { keys, vals = append(keys, k), append(vals, v) }
+	version := func(class int) {
+		m.hasV, m.vClass = true, class
+		if class == 0 {
+			add("jsonrpc", tokString("2.0"))
+		} else {
+			add("jsonrpc", tokString("1.0"))
+		}
+	}
+	id := func() {
+		m.hasID = true
+		m.id = nondetToken(tag + ".id")
+		m.idKind = tokKind(m.id)
+		assume(m.idKind != tkInvalid)
+		add("id", m.id)
+	}
+	method := func(name string) {
+		m.hasM, m.mClass, m.method = true, 0, name
+		add("method", tokString(name))
+	}
+	params := func() {
+		m.hasP = true
+		m.params = nondetToken(tag + ".params")
+		m.pKind = tokKind(m.params)
+		assume(m.pKind != tkInvalid)
+		add("params", m.params)
+	}
+	switch nondetChoice(tag+".class", 9) {
+	case 0: // a call (valid iff its id and params are of the allowed kinds)
+		version(0)
+		id()
+		method("ok")
+		params()
+	case 1: // a notification
+		version(0)
+		method("ok")
+	case 2: // unknown method
+		version(0)
+		id()
+		method("nosuch")
+	case 3: // reserved method
+		version(0)
+		id()
+		method("rpc.other")
+	case 4: // wrong version, with an id
+		version(1)
+		id()
+		method("ok")
+	case 5: // no version, no id, method not a string
+		m.hasM, m.mClass = true, 2
+		v := nondetToken(tag + ".mtok")
+		k := tokKind(v)
+		assume(k != tkString && k != tkNull && k != tkInvalid)
+		add("method", v)
+	case 6: // reply-shaped: a result under an id
+		version(0)
+		id()
+		m.hasR = true
+		m.result = nondetToken(tag + ".result")
+		assume(tokKind(m.result) != tkInvalid)
+		add("result", m.result)
+	case 7: // reply-shaped: an error object
+		version(0)
+		id()
+		m.hasE, m.eClass = true, 0
+		m.errCode = nondetInt32(tag + ".ecode")
+		add("error", tokObject([]string{"code", "message"}, []json.RawMessage{tokLitInt(int(m.errCode)), tokString("boom")}))
+	case 8: // not an object
+		m = &verifMember{}
+		m.raw = nondetToken(tag + ".raw")
+		k := tokKind(m.raw)
+		assume(k != tkObject && k != tkInvalid && k != tkArray)
+		return m
 	}
 	m.nkeys = len(keys)
 	m.raw = tokObject(keys, vals)
